@@ -298,7 +298,11 @@ _ALSO = {
     "C16": ("a hand-written Drop for a spine type may skip the detaching loop only on a test of the chain's own shape "
             "(a branch on anything else that returns with the tail attached hands the chain to the recursive drop glue); "
             "the cdr of a cell reached through a car is an element's payload, not the spine.", None),
-    "C15": ("the tail handling of the list traversals maps each cdr shape to the documented outcome.", None),
+    "C15": ("association-list lookup by name and by value, evaluated abstractly over six synthetic lists with concrete "
+            "key texts (entries that are not pairs, duplicate keys, the same text under each name kind, a dotted tail, "
+            "a non-list): the answer is the cdr of the first entry whose key matches - any name kind with that text "
+            "for lookup by name, the same kind and text for lookup by value - and None otherwise (24 cases); "
+            "the tail handling of the list traversals maps each cdr shape to the documented outcome.", None),
 }
 for _k, (_t, _tech) in _ALSO.items():
     CLAIMS[_k]["text"] = CLAIMS[_k]["text"] + " Also claimed: " + _t
